@@ -278,3 +278,15 @@ func termDiff(a, b *sym.Term) string {
 	}
 	return clip(a.String(), 400) + "   VERSUS   " + clip(b.String(), 400)
 }
+
+// indexSafety discharges the run-time bounds checks of a run (slice bounds, indices, slice-to-array conversions whose
+// operands constant propagation did not settle) from the path condition; a caller's slice is only known to have a
+// capacity of at least its length.  A check that does not follow is a reachable panic for some input.
+func indexSafety(c *Ctx, rule, key, pos string, r *Run) {
+	n, fpos, fmsg := checkBounds(r)
+	if fmsg != "" {
+		c.R.Fail(rule, key+"/index-safety", fpos, "a slice / index / conversion may be out of range: "+fmsg)
+		return
+	}
+	c.R.OK(rule, key+"/index-safety", pos, fmt.Sprintf("%d run-time bounds checks follow from the path conditions", n))
+}
